@@ -33,11 +33,11 @@ fn compare(t: &mut Two, ctx: &str, cells: &[u16]) -> Result<(), (String, String)
     // raw I/O-page cells as well: both machines receive identical host probes, so any difference comes from strict mode itself
     for c in 0xFE00..=0xFFFFu16 { let (a, b) = (t.s.sim.mem[c], t.n.sim.mem[c]); if a != b { return Err(("state-differs:io-page-cell".into(), format!("{ctx}: mem[x{c:04X}] strict {a:?} vs non-strict {b:?}"))); } }
     for c in cells { if *c < 0xFE00 { let (a, b) = (t.s.sim.mem[*c], t.n.sim.mem[*c]); if a != b { return Err(("state-differs:memory".into(), format!("{ctx}: mem[x{c:04X}] strict {a:?} vs non-strict {b:?}"))); } } }
-    let (ka, kb): (Vec<u8>, Vec<u8>) = (t.s.kb.get_buffer().read().unwrap().iter().copied().collect(), t.n.kb.get_buffer().read().unwrap().iter().copied().collect());
+    let (ka, kb): (Vec<u8>, Vec<u8>) = (t.s.kb.get_buffer().read().unwrap_or_else(|e| e.into_inner()).iter().copied().collect(), t.n.kb.get_buffer().read().unwrap_or_else(|e| e.into_inner()).iter().copied().collect());
     if ka != kb { return Err(("device-effect:keyboard".into(), format!("{ctx}: keyboard queue strict {ka:x?} vs non-strict {kb:x?}"))); }
-    let (da, db) = (t.s.disp.get_buffer().read().unwrap().clone(), t.n.disp.get_buffer().read().unwrap().clone());
+    let (da, db) = (t.s.disp.get_buffer().read().unwrap_or_else(|e| e.into_inner()).clone(), t.n.disp.get_buffer().read().unwrap_or_else(|e| e.into_inner()).clone());
     if da != db { return Err(("device-effect:display".into(), format!("{ctx}: display strict {da:x?} vs non-strict {db:x?}"))); }
-    let (ra, rb) = (t.s.rec.log.lock().unwrap().clone(), t.n.rec.log.lock().unwrap().clone());
+    let (ra, rb) = (t.s.rec.log.lock().unwrap_or_else(|e| e.into_inner()).clone(), t.n.rec.log.lock().unwrap_or_else(|e| e.into_inner()).clone());
     if ra != rb { return Err(("device-effect:custom".into(), format!("{ctx}: recording device strict {ra:x?} vs non-strict {rb:x?}"))); }
     if t.s.sim.instructions_run != t.n.sim.instructions_run { return Err(("state-differs:instruction-count".into(), format!("{ctx}: instruction counts {} vs {}", t.s.sim.instructions_run, t.n.sim.instructions_run))); }
     if t.s.sim.frame_stack.len() != t.n.sim.frame_stack.len() { return Err(("state-differs:frames".into(), format!("{ctx}: frame depth {} vs {}", t.s.sim.frame_stack.len(), t.n.sim.frame_stack.len()))); }
@@ -133,6 +133,18 @@ fn run_loaded(i: u64, full_init: bool) -> Result<(u64, u64), (String, String)> {
     run_pair_built(t, 5, full_init, &what)
 }
 
+/// program pair; `int` > 0: a device requests one (edge-triggered, priority-4) interrupt at poll int-1 on both machines, serviced by an
+/// initialized ISR (push R0, clobber, pop, RTI): taking a device interrupt is not something strict mode may object to
+fn run_program(len: usize, idx: u64, flags: u64, full: bool, int: u64) -> Result<(u64, u64), (String, String)> {
+    let (mut m, words) = program_machine(len, idx, flags);
+    if int == 0 { return run_pair(&m, 120, full, &format!("program {words:x?} flags {flags}")); }
+    for (k, w) in [0x1DBFu16, 0x7180, 0x5020, 0x6180, 0x1DA1, 0x8000].iter().enumerate() { m.pokes.push((0x1F00 + k as u16, *w)); }
+    m.pokes.push((0x0190, 0x1F00));
+    let mut t = build_two(&m, full);
+    for p in [&mut t.s, &mut t.n] { let i = p.add_source(0x90, 4, vec![int - 1]); p.sources[i].state.lock().unwrap_or_else(|e| e.into_inner()).edge = true; }
+    run_pair_built(t, 120, full, &format!("program {words:x?} flags {flags} with an interrupt requested at poll {}", int - 1))
+}
+
 pub fn run(ctx: &Ctx) -> Report {
     let mut rep = Report::new("pairs of real simulators (strict / non-strict) built from one machine description with Known fill, stepped together: (1) every word x the single-step contexts of C08 (2 steps); (2) all programs of <=2 (thorough 3) instructions over the 40-word alphabet x 4 flag sets (<=120 steps); (3) targeted: JMP/JSRR/RET/LDR+STR/stack-relative/RTI aimed at OS memory, x2FFF, KBSR, KBDR (with queued input), DSR, DDR, a custom device port, PSR, MCR, user code and uninitialized user memory x 4 flag sets; (4) object files loaded with load_obj_file (two blocks with .blkw regions): LDR/STR/LDI/STI and load-then-store sequences aimed at 10 address classes relative to the loaded blocks (below, first/last word, one past, inside .blkw, between blocks, second block, top of user memory) x initialized/uninitialized source x 4 flag sets; each family also on fully initialized machines (all 64K words and 8 registers marked initialized). Oracle: strict-accepted step => identical registers (with init flags), PC, PSR, saved SP, touched memory, the raw I/O-page cells, device buffers, counts; strict-only failure => a Strict* error; initialized machine => no Strict* error. non-trivial = pairs in which strict mode rejected a step");
     let nctx = context_count(ctx.thorough()).min(ctx.pick(12, 60));
@@ -154,14 +166,15 @@ pub fn run(ctx: &Ctx) -> Report {
     for len in 1..=maxlen {
         let n = 40u64.pow(len as u32);
         let fstride = if len == 3 { 5 } else { 1 };
-        let r = sweep(ctx, n * 4 * 2, 16, |k, acc| {
+        let nint = if len <= 2 { 5 } else { 1 };
+        let r = sweep(ctx, n * 4 * 2 * nint, 16, |k, acc| {
+            let (int, k) = (k % nint, k / nint);
             let (idx, flags, full) = (k / 8, k / 2 % 4, k % 2 == 1);
             if full && idx % fstride != 0 { return; }
-            let (m, words) = program_machine(len, idx, flags);
-            acc.evals += 1; acc.count("program_pairs", 1);
-            match run_pair(&m, 120, full, &format!("program {words:x?} flags {flags}")) {
+            acc.evals += 1; acc.count("program_pairs", 1); if int > 0 { acc.count("program_pairs_with_interrupt", 1); }
+            match run_program(len, idx, flags, full, int) {
                 Ok((a, rj)) => { acc.transitions += 2 * a; acc.traces += 1; if rj > 0 { acc.nontrivial += 1; acc.count("strict_rejections", 1); } }
-                Err((sig, d)) => acc.violation(sig, format!("p:{len}:{idx}:{flags}:{}", full as u8), d),
+                Err((sig, d)) => acc.violation(sig, format!("p:{len}:{idx}:{flags}:{}:{int}", full as u8), d),
             }
         });
         rep.absorb(r);
@@ -197,6 +210,7 @@ pub fn replay(case: &str) -> Option<String> {
     let n = |i: usize| -> Option<u64> { p.get(i)?.parse().ok() };
     let r = match *p.first()? {
         "w" => { let mut m = context(n(1)?); let w = n(2)? as u16; if m.pc < 0xFE00 { m.pokes.push((m.pc, w)); } else { m.regs[0] = w; } run_pair(&m, 2, n(3)? == 1, &format!("sweep context {}", n(1)?)) }
+        "p" if p.len() >= 6 => run_program(n(1)? as usize, n(2)?, n(3)?, n(4)? == 1, n(5)?),
         "p" => { let (m, words) = program_machine(n(1)? as usize, n(2)?, n(3)?); run_pair(&m, 120, n(4)? == 1, &format!("program {words:x?} flags {}", n(3)?)) }
         "t" => { let (m, what) = targeted(n(1)?)?; run_pair(&m, 6, n(2)? == 1, &what) }
         "l" => run_loaded(n(1)?, n(2)? == 1),
